@@ -244,7 +244,7 @@ def _convertible(tok, exts):
 
 
 # ------------------------------------------------------------------------------------------------
-VALS = ["x", "a b", "a: b", "#x", "a #b", "'q'", "|", ">", "- x", "[x]", "{x}", "*", "&amp;", "", "10px", "50%", "bad len", "a\\b", "a,b",
+VALS = ["x", "a b", "a  b", " a", "a ", "a\tb", "a: b", "#x", "a #b", "'q'", "|", ">", "- x", "[x]", "{x}", "*", "&amp;", "", "10px", "50%", "bad len", "a\\b", "a,b",
         "  sp  ", "é", "left", "a:b", "x: ", "!t", "@x", "%p", "`c`", "?q", "x'y", ": lead", "\\", "a\\", "~", "null", "1"]
 IMG_ATTRS = ["alt", "class", "width", "height", "align", "name", "title", "id", "data-x"]
 OPTION_KEYS = {"class", "alt", "height", "width", "align", "name"}
@@ -481,5 +481,70 @@ class GfmSystem(System):
         return Obs(digest=(name, cs, close, tuple(dig)), nontrivial=name in NAMES, violations=viol, transitions=n, validated=n)
 
 
+IMG_FORMS = ['<img src="a.png">', '<img src="b.png" alt="B b">', '<img src="c.png" class="k l" width="10px">', '<img src="d.png" name="dn" align="left">', '<img src="e.png"/>',
+             '<img src="f.png" alt="  padded   value  ">', '<img src="g.png" alt="tab\tand  two">']
+ADM_FORMS = ['<div class="admonition tip" name="an">\n<p class="title">AT</p>\n<p>abody *e*</p>\n</div>', '<div class="admonition">\n<p>plain body</p>\n</div>']
+
+
+def img_directive(tag):
+    import html as _html
+
+    attrs = dict(re.findall(r'(\w[\w-]*)="([^"]*)"', tag))
+    src = attrs.pop("src")
+    opts = [f":{k}: {yq(_html.unescape(v))}" for k, v in sorted(attrs.items()) if k in OPTION_KEYS and v != ""]
+    return "```{image} " + src + "\n" + "".join(o + "\n" for o in opts) + "```\n"
+
+
+class MultiSystem(System):
+    """several convertible elements in ONE html block: each must be converted as if it were alone"""
+
+    name = "multi-element"
+
+    def __init__(self, tier):
+        super().__init__(tier)
+        self.description = (f"every ordered pair (thorough: triple) of {len(IMG_FORMS)} <img> forms and {len(ADM_FORMS)} admonition forms inside one HTML block: "
+                            "the image nodes must equal, one by one, those of the corresponding {image} directives")
+
+    def bounds(self):
+        return {"elements": 2 if self.tier == "quick" else 3, "forms": len(IMG_FORMS) + len(ADM_FORMS)}
+
+    def rule(self):
+        return "one case = one block of 2-3 elements; non-trivial = an element without options follows one with options"
+
+    def cases(self):
+        forms = list(range(len(IMG_FORMS) + len(ADM_FORMS)))
+        for t in itertools.product(forms, repeat=2):
+            yield list(t)
+        if self.tier != "quick":
+            for t in itertools.product(forms, repeat=3):
+                yield list(t)
+
+    def run(self, idx):
+        cfg = MdParserConfig(enable_extensions=["html_image", "html_admonition"])
+        forms = IMG_FORMS + ADM_FORMS
+        text = "\n".join(forms[i] for i in idx) + "\n"
+        doc, w = render(text, cfg)
+        imgs = list(doc.findall(nodes.image))
+        want = [i for i in idx if i < len(IMG_FORMS)]
+        viol = []
+        if len(imgs) != len(want):
+            viol.append(violation("equivalence", {"clause": "multi-element", "kind": "count"},
+                                  f"{len(imgs)} image nodes for {len(want)} <img> elements in one block: {text!r}", text=text))
+        else:
+            for j, (i, node) in enumerate(zip(want, imgs)):
+                ref, _ = render(img_directive(IMG_FORMS[i]), cfg)
+                rimg = list(ref.findall(nodes.image))
+                if rimg and pf(rimg[0]) != pf(node):
+                    viol.append(violation("equivalence", {"clause": "multi-element", "kind": "node"},
+                                          f"element #{j} {IMG_FORMS[i]} in block {text!r}: {pf(node).strip()}, alone / as directive: {pf(rimg[0]).strip()}", text=text))
+                    break
+        adm = list(doc.findall(nodes.admonition))
+        if len(adm) != sum(1 for i in idx if i >= len(IMG_FORMS)):
+            viol.append(violation("equivalence", {"clause": "multi-element", "kind": "admonition-count"},
+                                  f"{len(adm)} admonition nodes for {sum(1 for i in idx if i >= len(IMG_FORMS))} div.admonition elements", text=text))
+        nt = any(a < len(IMG_FORMS) and IMG_FORMS[a] in ('<img src="a.png">', '<img src="e.png"/>') for a in idx[1:])
+        return Obs(digest=tuple(pf(n) for n in imgs), nontrivial=nt, violations=viol[:2], transitions=1 + len(want), validated=len(want))
+
+
 def systems(tier):
-    return [PassSystem(tier), ImageSystem(tier), AdmonitionSystem(tier), GfmSystem(tier)]
+    return [PassSystem(tier), ImageSystem(tier), AdmonitionSystem(tier), GfmSystem(tier), MultiSystem(tier)]
